@@ -50,6 +50,8 @@ type GenCfg struct {
 	PostBehaviours     []string // behaviours of generated PostTransforms (default: mutate)
 	PPre               float64  // probability that a string leaf / string slice is wrapped in Preprocess (parse only)
 	PLong              float64  // probability that a slice value gets 17..40 elements
+	PVia               float64  // probability that a struct schema is assembled with Merge / Extend / Omit / Pick instead of literally
+	PStructInput       float64  // parse: probability that a struct node's input is a Go struct value instead of a map (only when every lookup key is an exported identifier)
 	PClean             float64  // probability that a case gets no input perturbation at all (PVary/PAbsent/PJunk scaled to 0)
 	PLight             float64  // probability that the perturbation probabilities are scaled by 0.25
 }
@@ -58,7 +60,7 @@ func DefaultCfg(mode string) GenCfg {
 	return GenCfg{
 		MaxDepth: 3, MaxFields: 4, MaxElems: 4, MaxTests: 3, Mode: mode,
 		PCatch: 0.15, PDefault: 0.12, PReq: 0.45, PPost: 0.1, PAbsent: 0.12, PJunk: 0.05, PVary: 0.25,
-		PTestSat: 0.8, POpts: 0.12, PZogTag: 0.25, PLong: 0.02,
+		PTestSat: 0.8, POpts: 0.12, PZogTag: 0.25, PLong: 0.02, PVia: 0.12, PStructInput: 0.2,
 		LeafKinds: []string{KString, KString, KInt, KInt, KInt32, KInt64, KFloat32, KFloat64, KBool, KTime},
 	}
 }
@@ -267,7 +269,7 @@ func (g *Gen) fixFully(kind string, v Val) Val {
 
 // ---- schema generation ----
 
-var fieldKeys = []string{"name", "age", "Email", "userId", "a", "b", "c", "tags", "addr", "x1", "Zip", "flag", "when", "n2", "list", "inner", "k9", "Q"}
+var fieldKeys = []string{"name", "age", "Email", "userId", "a", "b", "c", "tags", "addr", "x1", "Zip", "flag", "when", "n2", "list", "inner", "k9", "Q", "Title", "Count", "Items", "Owner"}
 
 func (g *Gen) genOpts() Opts {
 	var o Opts
@@ -284,6 +286,9 @@ func (g *Gen) genOpts() Opts {
 	default:
 		o.Code = "cc"
 		o.Path = "pp"
+	}
+	if g.intn(0, 3, "optp") == 0 {
+		o.HasParams, o.Params = true, map[string]string{"k1": "v1", "min": "custom"}
 	}
 	return o
 }
@@ -615,10 +620,14 @@ func (g *Gen) GenNode(depth int, root bool) *Node {
 					n.Tests = append(n.Tests, ft)
 				}
 			case "contains":
-				if IsPrimitive(n.Elem.Kind) && n.Elem.Kind != KTime && !g.Cfg.NoDataTests {
-					a := g.wit[n.Elem]
+				leaf := n.Elem
+				if leaf.Kind == KPtr && IsPrimitive(leaf.Elem.Kind) {
+					leaf = leaf.Elem // Slice(Ptr(T)).Contains(&v): membership by deep equality
+				}
+				if IsPrimitive(leaf.Kind) && leaf.Kind != KTime && !g.Cfg.NoDataTests {
+					a := g.wit[leaf]
 					if g.p(0.3, "cvar") {
-						a = g.vary(n.Elem.Kind, a)
+						a = g.vary(leaf.Kind, a)
 					}
 					n.Tests = append(n.Tests, TestSpec{Name: "contains", Arg: &a, Opts: g.genOpts()})
 				}
@@ -703,6 +712,9 @@ func (g *Gen) GenNode(depth int, root bool) *Node {
 							f.Tags[tk] = fmt.Sprintf("ZV_%s_%d", strings.ToUpper(key), g.envSeq)
 						default:
 							f.Tags[tk] = tk[:1] + "_" + key
+							if (tk == "form" || tk == "query") && f.Node.Kind == KSlice && g.p(0.5, "brk") {
+								f.Tags[tk] += "[]" // zhttp: a []-suffixed parameter is always a list
+							}
 						}
 					}
 				}
@@ -712,8 +724,11 @@ func (g *Gen) GenNode(depth int, root bool) *Node {
 		if g.p(0.3, "extra") {
 			n.Extra = []string{"Xtra0"}
 		}
+		if g.p(g.Cfg.PVia, "via") {
+			n.Via = pick(g, []string{"merge", "extend", "omit", "pick", "merge"}, "viak")
+		}
 		if !g.Cfg.NoFuncTests {
-			for i, k := 0, g.intn(0, 2, "stt")-1; i < k; i++ {
+			for i, k := 0, g.intn(0, 3, "stt")-1; i < k; i++ {
 				ft := g.funcTest([]string{"hashEven", "pass", "fail", "pass"}, len(n.Tests))
 				if g.p(g.Cfg.PTestSat, "stsat") {
 					ft.Str = "pass"
@@ -851,7 +866,8 @@ func (g *Gen) GenTyped(n *Node) Val {
 			k = g.intn(lo, g.Cfg.MaxElems, "sl")
 		}
 		if g.p(g.Cfg.PLong, "long") {
-			k = g.intn(17, 40, "sll")
+			// beyond typical small-buffer / cache sizes and around powers of two
+			k = pick(g, []int{17, 33, 40, 63, 64, 65, 66, 100, 127, 128, 129, 255, 256, 257, 600}, "sll")
 		}
 		out := Val{T: "list", L: make([]Val, 0, k)}
 		for i := 0; i < k; i++ {
@@ -969,6 +985,20 @@ func (g *Gen) Render(n *Node, v Val, pos string) (Val, bool) {
 			perm := rapid.Permutation(out.M).Draw(g.T, g.label("mperm"))
 			out.M = perm
 		}
+		// a Go struct as data source, when every key is usable as an exported field name
+		if !g.Cfg.LogicalKeys && len(out.M) > 0 && g.p(g.Cfg.PStructInput, "sin") {
+			ok := true
+			seen := map[string]bool{}
+			for _, kv := range out.M {
+				if !isExportedIdent(kv.K) || seen[kv.K] {
+					ok = false
+				}
+				seen[kv.K] = true
+			}
+			if ok {
+				out.T = "struct"
+			}
+		}
 		return out, true
 	case n.Kind == KSlice:
 		if len(v.L) == 1 && IsPrimitive(n.Elem.Kind) && g.p(0.2, "box") {
@@ -997,6 +1027,19 @@ func (g *Gen) Render(n *Node, v Val, pos string) (Val, bool) {
 		return v, true
 	}
 	return g.altRepr(n, v), true
+}
+
+func isExportedIdent(s string) bool {
+	if s == "" || s[0] < 'A' || s[0] > 'Z' {
+		return false
+	}
+	for i := 1; i < len(s); i++ {
+		c := s[i]
+		if !(c == '_' || (c >= '0' && c <= '9') || (c >= 'a' && c <= 'z') || (c >= 'A' && c <= 'Z')) {
+			return false
+		}
+	}
+	return true
 }
 
 // altRepr picks one of the documented equivalent representations of a typed leaf.
